@@ -1252,6 +1252,7 @@ private theorem wire_fold (w : Wire) (segs : List Bytes) (hdead : w.dead = true 
             dead := (eventsOf (feed w.rs seg).2).2 || decide ((run o resp pol f w.st (eventsOf (feed w.rs seg).2).1).1.phase = .errored),
             protoErr := (eventsOf (feed w.rs seg).2).2 && !decide ((run o resp pol f w.st (eventsOf (feed w.rs seg).2).1).1.phase = .errored),
             sawTrailer := (feed w.rs seg).2.contains .trailer,
+            errBlocked := w.errBlocked || ((eventsOf (feed w.rs seg).2).2 && decide ((run o resp pol f w.st (eventsOf (feed w.rs seg).2).1).1.phase = .errored)),
             outs := w.outs ++ (run o resp pol f w.st (eventsOf (feed w.rs seg).2).1).2,
             smp := w.smp ++ [(run o resp pol f w.st (eventsOf (feed w.rs seg).2).1).1.buf.length] } := by
         simp [Wire.recv, Wire.deliverItems, hd]
@@ -1414,6 +1415,111 @@ theorem parseSize_suffix (d : UInt8) (ds : Bytes) (hd : isDigit d = true) (hds :
 example : parseSize [0x31, 0x6b] = some 1024 := by decide
 example : parseSize [0x31, 0x4b] = none := by decide
 example : parseSize [] = none := by decide
+
+/-! ### what the flow keeps after a LATE switch to streaming (round-6 audit: the clause "keeps those bytes only if
+    store_streamed_bodies" for a body that was first buffered) -/
+
+/-- **stored_after_late_switch.** A buffering flow whose next chunk `b` makes it switch to streaming, followed by any
+    further chunks and the end of the message: with store_streamed_bodies the flow keeps exactly the bytes that were
+    relayed (everything buffered so far, `b`, and the later chunks, in order); without it the flow keeps nothing of the
+    body (its content stays what it was — `none` for every flow that has not ended, see `content_none_until_done`) and
+    its buffer is empty. -/
+theorem stored_after_late_switch (st : St) (b : Bytes) (chunks : List Bytes) (hp : st.phase = .consume)
+    (hne : st.buf ++ b ≠ []) (hc : check o st.exp (st.buf ++ b) = .stream) :
+    let s1 := step o resp pol f st (.data b)
+    let r := run o resp pol f s1.1 (chunks.map Ev.data ++ [Ev.eom])
+    r.1.phase = .done ∧
+    r.1.content = (if o.store then some (dataOf (s1.2 ++ r.2)).flatten else st.content) ∧
+    (dataOf (s1.2 ++ r.2)).flatten = st.buf ++ b ++ chunks.flatten ∧
+    r.1.buf = [] := by
+  intro s1 r
+  have hstep : step o resp pol f st (Ev.data b) =
+      ({ st with buf := if o.store then st.buf ++ b else [], phase := .stream, useF := false },
+       [Out.sendHead, Out.sendData (st.buf ++ b)]) := by
+    simp [step, hp, hc, hne, relay]
+  obtain ⟨h1, h2, h3, h4⟩ := stream_run o resp pol f s1.1 (by simp [s1, hstep]) chunks
+  have hu : s1.1.useF = false := by simp [s1, hstep]
+  have hd : dataOf r.2 = chunks := by
+    show dataOf (run o resp pol f s1.1 (chunks.map Ev.data ++ [Ev.eom])).2 = chunks
+    rw [h1, hu]
+    have e0 : onData false f = fun c => [c] := by funext c; simp [onData]
+    simp [e0, onEnd]
+  have hs2 : dataOf s1.2 = [st.buf ++ b] := by simp [s1, hstep, dataOf]
+  refine ⟨h2, ?_, ?_, ?_⟩
+  · show (run o resp pol f s1.1 (chunks.map Ev.data ++ [Ev.eom])).1.content = _
+    rw [h3, dataOf_append, hs2]
+    cases hs : o.store
+    · simp [s1, hstep]
+    · have hb : s1.1.buf = st.buf ++ b := by simp [s1, hstep, hs]
+      simp [hb]
+      rfl
+  · rw [dataOf_append, hs2, hd]; simp
+  · show (run o resp pol f s1.1 (chunks.map Ev.data ++ [Ev.eom])).1.buf = _
+    rw [h4]
+    cases hs : o.store <;> simp [s1, hstep, hs]
+
+/-- a flow that has not reached `done` carries no content yet: in every history from `init` -/
+theorem content_none_until_done (evs : List Ev) (h : (run o resp pol f init evs).1.phase ≠ .done) :
+    (run o resp pol f init evs).1.content = none := by
+  have key : ∀ (st : St) (evs : List Ev), st.content = none → st.phase ≠ .done →
+      (run o resp pol f st evs).1.phase ≠ .done → (run o resp pol f st evs).1.content = none := by
+    intro st evs
+    induction evs generalizing st with
+    | nil => intro hc _ _; simpa [run] using hc
+    | cons e es ih =>
+      intro hc hp hfin
+      simp only [run] at hfin ⊢
+      by_cases hd : (step o resp pol f st e).1.phase = .done
+      · rw [run_done o resp pol f _ hd] at hfin; exact absurd hd hfin
+      · refine ih _ ?_ hd hfin
+        cases e with
+        | headers exp endS =>
+          cases hph : st.phase <;> cases endS <;> cases pol <;> cases hck : check o exp [] <;>
+            simp [step, hph, hck, hc]
+        | data c =>
+          cases hph : st.phase
+          case consume =>
+            cases hck : check o st.exp (st.buf ++ c)
+            · simp [step, hph, hck, hc]
+            · simp [step, hph, hck, hc]
+            · by_cases hb : st.buf ++ c = []
+              · rw [hb] at hck
+                have hb' := hb
+                simp at hb'
+                simp [step, hph, hck, hb'.1, hb'.2, hc]
+              · simp [step, hph, hck, hb, relay, hc]
+          case stream => simp [step, hph, relay, hc]
+          all_goals simp [step, hph, hc]
+        | eom =>
+          cases hph : st.phase
+          case consume => simp [step, hph] at hd
+          case stream => simp [step, hph, relay] at hd
+          all_goals simp [step, hph, hc]
+  exact key init evs rfl (by decide) h
+
+/-- **stored_iff_option_late.** From the headers on, for a body that is buffered first (any prefix history `pre` that ends in
+    the consume state) and switched to streaming by the chunk `b`: at the end the flow keeps exactly what was relayed from
+    the switch on iff store_streamed_bodies is on, and nothing otherwise. -/
+theorem stored_iff_option_late (pre : List Ev) (b : Bytes) (chunks : List Bytes)
+    (hp : (run o resp pol f init pre).1.phase = .consume)
+    (hne : (run o resp pol f init pre).1.buf ++ b ≠ [])
+    (hc : check o (run o resp pol f init pre).1.exp ((run o resp pol f init pre).1.buf ++ b) = .stream) :
+    let st := (run o resp pol f init pre).1
+    let s1 := step o resp pol f st (.data b)
+    let r := run o resp pol f s1.1 (chunks.map Ev.data ++ [Ev.eom])
+    r.1.content = (if o.store then some (st.buf ++ b ++ chunks.flatten) else none) ∧ r.1.buf = [] := by
+  intro st s1 r
+  obtain ⟨_, h2, h3, h4⟩ := stored_after_late_switch o resp pol f st b chunks hp hne hc
+  have hn : st.content = none := content_none_until_done o resp pol f pre (by rw [hp]; decide)
+  refine ⟨?_, h4⟩
+  show r.1.content = _
+  rw [show r.1.content = _ from h2, show (dataOf (s1.2 ++ r.2)).flatten = _ from h3, hn]
+
+-- non-vacuity: threshold 3, two bytes buffered, two more switch; store on: the flow keeps all six bytes that were relayed
+example : (run { limit := none, thr := some 3, store := true } false .none (fun d => .one d) init
+    [.headers .unknown false, .data [1, 2], .data [3, 4], .data [5, 6], .eom]).1.content = some [1, 2, 3, 4, 5, 6] := by decide
+example : (run { limit := none, thr := some 3, store := false } false .none (fun d => .one d) init
+    [.headers .unknown false, .data [1, 2], .data [3, 4], .data [5, 6], .eom]).1.content = none := by decide
 
 /-! ### non-vacuity witnesses added by the round-6 cross-audit (b-c05) -/
 
